@@ -122,8 +122,78 @@ var c20Scenarios = []string{
 	"prep-first", "prep-first-prove", "prep-repeat-prove", "prove-shared", "verify-shared", "cprng", "keygen", "keyproof",
 }
 
+// inflightRefreshOp: a session that spans a cache refresh (committed before, answered after the
+// credential moved to the next accumulator and its cache was prepared again) and a proof finished
+// before: both stay as valid as if nothing had happened to the credential in between. The steps
+// are the interleaving; no scheduler is needed to reproduce it.
+func inflightRefreshOp(g *Rng, kp *KeyPair, rounds int) Op {
+	res := func() (r string) {
+		defer func() {
+			if e := recover(); e != nil {
+				r = fmt.Sprintf("panic: %v", e)
+			}
+		}()
+		pk := kp.pk
+		keys := []*gabikeysPublicKey{pk}
+		ir := newIssuerRev(g, kp)
+		w := ir.witnessFor()
+		cred := issueCred(kp, randSecret(g), []*big.Int{g.bits(100), w.E})
+		cred.NonRevocationWitness = w
+		for round := 0; round < rounds; round++ {
+			ctx, nonce := g.bits(256), g.bits(80)
+			if err := cred.NonrevPrepareCache(); err != nil {
+				return "prepare: " + err.Error()
+			}
+			finished, err := cred.CreateDisclosureProof([]int{1}, nil, true, ctx, nonce)
+			if err != nil {
+				return "finished-proof: " + err.Error()
+			}
+			if ambiguous(proofDTree(finished)) {
+				continue
+			}
+			if !(gabi.ProofList{finished}).Verify(keys, ctx, nonce, false, nil) {
+				return fmt.Sprintf("round %d: fresh proof does not verify", round)
+			}
+			if err := cred.NonrevPrepareCache(); err != nil {
+				return "prepare: " + err.Error()
+			}
+			b, err := cred.CreateDisclosureProofBuilder([]int{1}, nil, true)
+			if err != nil {
+				return "builder: " + err.Error()
+			}
+			c, err := gabi.ProofBuilderList{b}.Challenge(ctx, nonce, false)
+			if err != nil {
+				return "challenge: " + err.Error()
+			}
+			// meanwhile
+			if err := cred.NonrevPrepareCache(); err != nil {
+				return "prepare: " + err.Error()
+			}
+			from := ir.acc.Index + 1
+			ir.revoke(revPrime(g))
+			if err := cred.NonRevocationWitness.Update(pk, ir.updateFrom(from)); err != nil {
+				return "witness update: " + err.Error()
+			}
+			if err := cred.NonrevPrepareCache(); err != nil {
+				return "prepare: " + err.Error()
+			}
+			inflight := b.CreateProof(c).(*gabi.ProofD)
+			if !ambiguous(proofDTree(inflight)) && !(gabi.ProofList{inflight}).Verify(keys, ctx, nonce, false, nil) {
+				return fmt.Sprintf("round %d: the proof of the session in flight during the refresh does not verify", round)
+			}
+			if !(gabi.ProofList{finished}).Verify(keys, ctx, nonce, false, nil) {
+				return fmt.Sprintf("round %d: a proof finished before the refresh no longer verifies", round)
+			}
+		}
+		return "all-verify"
+	}()
+	return Op{"op": "recorded", "class": "session-spans-cache-refresh", "label": "all-verify", "nomodel": true, "fkey": "C20/session-spans-cache-refresh",
+		"result": res, "key": kp.id, "rounds": rounds}
+}
+
 func genC20(g *Rng, tier string, emit func(Op)) {
 	thorough := tier == "thorough"
+	emit(inflightRefreshOp(g, fixedKey("k1024a", true), 3))
 	// the safe-prime workers stopped either way (close / send), the consumer still reading: what a
 	// concurrent search delivers is as valid as what a sequential one returns (never nil), and no
 	// worker is left (executor shared with C16)
